@@ -102,6 +102,14 @@ def check_deleg(repo, res, fns):
     # collections
     for wname, rname in (("write_hif_collection", "read_hif_collection"), ("write_json", "read_json")):
         w, r = fns[wname], fns[rname]
+        from .common import with_module_helpers
+
+        helpers = [h for h in with_module_helpers(repo, w) if h is not w and h.name.startswith("_")]
+        if helpers:
+            # the collection bookkeeping was extracted into a private helper: analyse the helper as the writer body
+            merged = ast.FunctionDef(name=w.name, args=w.node.args, body=list(w.node.body) + [s for h in helpers for s in h.node.body], decorator_list=[], lineno=w.node.lineno)
+            ast.fix_missing_locations(merged)
+            w = type(w)(w.module, w.name, w.qualname, merged, w.cls, w.parent)
         wkeys = {n.slice.value for n in ast.walk(w.node) if isinstance(n, ast.Subscript) and isinstance(n.slice, ast.Constant) and isinstance(n.slice.value, str) and isinstance(n.ctx, ast.Store)} | {k.value for d in ast.walk(w.node) if isinstance(d, ast.Dict) for k in d.keys if isinstance(k, ast.Constant)}
         wkeys |= {n.slice.value for n in ast.walk(w.node) if isinstance(n, ast.Subscript) and isinstance(n.slice, ast.Constant) and isinstance(n.slice.value, str) and isinstance(n.value, ast.Name) and n.value.id == "collection_data"}
         rkeys = {n.slice.value for n in ast.walk(r.node) if isinstance(n, ast.Subscript) and isinstance(n.slice, ast.Constant) and isinstance(n.slice.value, str)}
